@@ -305,6 +305,9 @@ func drawCase(t *rapid.T) Case {
 	// focused rounds: every goroutine starts the same flow and answers with texts aimed at that flow's router cases, so
 	// that the same shared structures (flow, groups, locations, lazily built values) are first used at the same time
 	focused := rapid.Bool().Draw(t, "focused")
+	if focused && n < 4 {
+		n = 4 // more goroutines on the same path at the same time
+	}
 	var tr0 world.M
 	_ = json.Unmarshal(cs.Trigger, &tr0)
 	texts := []string{"red", "blue", "yes", "5", "hello", "18", "magic", "Centre", "Gasabo", "Gisozi", "Market", "Kigali", "I moved from East to Kigali last year", "1.234,5 francs", "Ndera"}
